@@ -2,6 +2,7 @@
    Hand-written glue (trusted): parsing of input lines, conversion between OCaml ints /
    strings and the extracted Z / nat / lists, printing of canonical observation lines. *)
 open Model
+open Modes
 
 let rec pos_of_int (i : int) : positive =
   if i = 1 then XH
@@ -21,15 +22,6 @@ let rec nat_of_int (i : int) : nat = if i <= 0 then O else S (nat_of_int (i - 1)
 let rec int_of_nat (n : nat) : int = match n with O -> 0 | S m -> 1 + int_of_nat m
 
 let zs = fun x -> string_of_int (int_of_z x)
-
-let read_lines path =
-  let ic = open_in path in
-  let rec go acc = match input_line ic with
-    | l -> go (l :: acc)
-    | exception End_of_file -> close_in ic; List.rev acc in
-  go []
-
-let words l = List.filter (fun s -> s <> "") (String.split_on_char ' ' (String.trim l))
 
 (* ------------------------------------------------------------------ bump *)
 let bump_mode dbg inp outp =
@@ -191,9 +183,8 @@ let strlib_mode inp outp =
   ) (read_lines inp);
   close_out oc
 
+
 let () =
-  match Array.to_list Sys.argv with
-  | _ :: "strlib" :: inp :: outp :: _ -> strlib_mode inp outp
-  | _ :: "pool" :: dbg :: inp :: outp :: _ -> pool_mode (dbg = "1") inp outp
-  | _ :: "bump" :: dbg :: inp :: outp :: _ -> bump_mode (dbg = "1") inp outp
-  | _ -> prerr_endline "usage: nsmodel <mode> ..."; exit 2
+  register "bump" (function dbg :: inp :: outp :: _ -> bump_mode (dbg = "1") inp outp | _ -> failwith "bump: args");
+  register "pool" (function dbg :: inp :: outp :: _ -> pool_mode (dbg = "1") inp outp | _ -> failwith "pool: args");
+  register "strlib" (function inp :: outp :: _ -> strlib_mode inp outp | _ -> failwith "strlib: args")
